@@ -280,7 +280,7 @@ let () =
           incr compared;
           if m <> h then diverge "NAMEB" m h;
           (match name_from_bytes (bytes_of_hexf h) with
-           | Some n' when n' = n -> if rt <> "1" then diverge "NAMEB-rt" "1" rt
+           | Some n' when n' = n -> if rt <> "1" then specfail "name-bytes-roundtrip" ("NameFromBytes(Name.Bytes()) does not return the name: " ^ h)
            | _ -> specfail "name-bytes-roundtrip" ("Name.Bytes() does not decode to the name: " ^ h))
       | ["COMPB"; c; h; rt] ->
           let c = comp_of_string c in
@@ -288,7 +288,7 @@ let () =
           incr compared;
           if m <> h then diverge "COMPB" m h;
           (match comp_from_bytes (bytes_of_hexf h) with
-           | Some c' when c' = c -> if rt <> "1" then diverge "COMPB-rt" "1" rt
+           | Some c' when c' = c -> if rt <> "1" then specfail "comp-bytes-roundtrip" ("ComponentFromBytes(Component.Bytes()) does not return the component: " ^ h)
            | _ -> specfail "comp-bytes-roundtrip" ("Component.Bytes() does not decode to the component: " ^ h))
       | ["VALID"; kind; key; cov; st; sv; verdict] ->
           incr compared;
